@@ -882,7 +882,10 @@ def _index_put(a, indices, values, accumulate=False):
     if accumulate:
         # duplicates in idx would need scatter-add semantics; indices used by leaspy are unique
         sel = A[idx]
-        A[idx] = vmap(T.mk_add, sel, np.broadcast_to(V, np.shape(sel)))
+        if isinstance(sel, np.ndarray):
+            A[idx] = vmap(T.mk_add, sel, np.broadcast_to(V, np.shape(sel)))
+        else:
+            A[idx] = T.mk_add(sel, V.reshape(-1)[0] if V.size == 1 else V[()])
     else:
         A[idx] = V if V.ndim else V[()]
     return mk(A, dt)
